@@ -130,7 +130,7 @@ def r1(ctx):
                               "application-supplied `%s` is stored into Response.%s (formatted into the response head by default_headers/send_headers) without a dominating "
                               "validate-or-raise: CR / LF / NUL reach the wire (e.g. status '200 OK\\r\\nX-Evil: 1' adds a header line)" % (lf.id, fld),
                               "`%s` validated (%d guard(s)) before it is stored into Response.%s" % (lf.id, len(hits), fld), path=p and g.fmt_path(p))
-    ctx.floor("C09.R1", "non-literal writes to head fields", n, 3)
+    ctx.floor("C09.R1", "non-literal writes to head fields", n, 2)
     # writers outside the class (handle_error builds a status from literals)
     for f in repo.funcs():
         if f.cls is not None and f.cls.qualname == RESP:
@@ -221,7 +221,7 @@ def r3(ctx):
                     continue
                 n += 1
                 ctx.check("C09.R3", f is hf and any(a is hloop.ast for a in f.module.ancestors(c)), key(f, "headers-writer"), site(f, c), "Response.headers is extended outside the validating header loop (validation bypassed)", "only the validating loop appends")
-    ctx.floor("C09.R3", "Response.headers append sites", n, 2)
+    ctx.floor("C09.R3", "Response.headers append sites", n, 1)
     f = ctx.fn(repo.func(RESP + ".start_response"))
     g = f.cfg
     ph = [n2 for c in calls_to(repo, f, hf.qualname) for n2 in nodes_with(f, c)] if hf is not f else [hloop]
